@@ -34,6 +34,11 @@ func histSystems(cloud bool) []*HistSys {
 		// the same alphabet from a non-initial state: both pods created and bound
 		out = append(out, &HistSys{Class: c, Cfg: cfgTwoPools(cloud), NPods: 2, Replicas: 2, Ops: histOpsAll, PrefixName: "allbound",
 			Prefix: []Op{{Kind: "create", A: 0}, {Kind: "sched", A: 0}, {Kind: "create", A: 1}, {Kind: "sched", A: 1}}})
+		if c.Kind == "dp" || c.Kind == "dppool" {
+			// one replica, two pod names: the replacement of a deleted pod carries another name, and it may be scheduled before or
+			// after the old pod's delete event is handled
+			out = append(out, &HistSys{Class: c, Cfg: cfgTwoPools(cloud), NPods: 2, Replicas: 1, Ops: histOpsAll, PrefixName: "onereplica"})
+		}
 		if c.Kind == "dppool" {
 			// the pool additionally has a Pool object with a size (filter then allocates during Filter)
 			out = append(out, &HistSys{Class: c, Cfg: cfgTwoPools(cloud), NPods: 2, Replicas: 2, Ops: histOpsAll, PoolSize: 2, PrefixName: "sizedpool"})
@@ -221,6 +226,25 @@ func c02Model(h *HistSys, hist []Op, w *world.World) (*Finding, string) {
 						if s.Alloc && s.Key == k.KeyInDB && s.IP == x {
 							ok = true // allocated to this very pod during an earlier filter
 						}
+					}
+					// whatever the order of the old pod's delete event and this scheduling: an app that already holds as many IPs as it
+					// has replicas (in use, held by a pod that is gone, or in reserve) is not given a further, fresh one
+					limit := replicas
+					if h.PoolSize > 0 {
+						limit = h.PoolSize
+					}
+					heldBefore, wasApps := 0, false
+					for _, s := range o.Before {
+						if s.Alloc && strings.HasPrefix(s.Key, k.PoolPrefix()) {
+							heldBefore++
+							if s.IP == x {
+								wasApps = true
+							}
+						}
+					}
+					if !wasApps && limit >= 0 && heldBefore >= limit {
+						return &Finding{Clause: "fresh-ip-although-app-holds-its-share", Culprit: "sched",
+							Detail: fmt.Sprintf("%s: pod %s bound with the fresh IP %s although the app already held %d IPs with %d replicas", histString(hist), h.pod(o.Op.A).Name, x, heldBefore, limit)}, ""
 					}
 					if len(free) > 0 && !ok {
 						return &Finding{Clause: "fresh-ip-while-app-holds-reserve", Culprit: "sched",
